@@ -68,6 +68,16 @@ add(
     "DESIGN.md §4 C03",
 )
 
+add(
+    "C04", "exploration",
+    "bounded-exhaustive enumeration of the (own info x .license x REUSE.toml chain) cell space, ~150 cells per generated project; reference attribution model from the property text",
+    "All 18 750 two-level cells (6 own states x 5 .license states x 25 x 25 table options incl. 'two matching tables, later wins' in exact/glob shapes) "
+    "in quick, all three-level cells in thorough (1/64 sample in quick), the dep5 grid, shared-table groups (one glob table serving several files) and "
+    "the dep5+REUSE.toml conflict are run through `reuse lint --json`; every reported item (value, source path, source type) must equal the model's set.",
+    "Trusts vlib/ref/attribution.py. Tables above an override and overrides without information are only weakly checked (statement silent).",
+    "DESIGN.md §4 C04",
+)
+
 NOT_BUILT = "check not built yet in this revision of /verif (planned in DESIGN.md §4; property-based testing applies)"
 
 
